@@ -8,194 +8,96 @@ import (
 	"strings"
 
 	"github.com/cosmos/cosmos-sdk/codec"
-	gogoproto "github.com/cosmos/gogoproto/proto"
-	"google.golang.org/protobuf/reflect/protoreflect"
+	codectypes "github.com/cosmos/cosmos-sdk/codec/types"
 
 	hubtypes "github.com/sentinel-official/hub/v12/types"
-	deposittypes "github.com/sentinel-official/hub/v12/x/deposit/types"
-	minttypes "github.com/sentinel-official/hub/v12/x/mint/types"
-	nodetypes "github.com/sentinel-official/hub/v12/x/node/types"
-	plantypes "github.com/sentinel-official/hub/v12/x/plan/types"
-	providertypes "github.com/sentinel-official/hub/v12/x/provider/types"
-	sessiontypes "github.com/sentinel-official/hub/v12/x/session/types"
 	subscriptiontypes "github.com/sentinel-official/hub/v12/x/subscription/types"
-	swaptypes "github.com/sentinel-official/hub/v12/x/swap/types"
-	vpntypes "github.com/sentinel-official/hub/v12/x/vpn/types"
 )
+
+// NOTE on imports: this package deliberately imports neither
+// github.com/cosmos/gogoproto nor google.golang.org/protobuf directly. Both are
+// `// indirect` requirements of the harness module, and with GOFLAGS=-mod=mod a
+// direct import makes the go command rewrite go.mod. The registry functions we
+// would have used (proto.MessageName, proto.MessageType, proto.EnumValueMap,
+// proto.GogoResolver.RangeFiles) are replaced by: the generated table
+// types_table.go (one entry per proto.RegisterType call in the hub), msgName
+// below (the real registry via NewAnyWithValue), enumValues below (the
+// generated *_value maps), and a cross-check against the application's
+// interface registry.
 
 // Msg is what the real codec's Marshal/Unmarshal accept.
 type Msg = codec.ProtoMarshaler
 
-// TypeEntry is one covered concrete type.
-type TypeEntry struct {
-	Name     string // fully-qualified proto name
-	New      func() Msg
-	Explicit bool // listed in the explicit table (as opposed to registry-only)
-}
-
-type explicitEntry struct {
-	name string
+// tableEntry is a row of the generated typeTable.
+type tableEntry struct {
+	name string // fully-qualified proto name
+	core bool
 	new  func() Msg
 }
 
-// explicitTable is the hand-written list of the types property C19 is stated
-// for. The registry enumeration below is a superset; the table is kept so that
-// a type silently disappearing from the registry is detected.
-var explicitTable = []explicitEntry{
-	// x/provider
-	{"sentinel.provider.v2.MsgRegisterRequest", func() Msg { return new(providertypes.MsgRegisterRequest) }},
-	{"sentinel.provider.v2.MsgUpdateRequest", func() Msg { return new(providertypes.MsgUpdateRequest) }},
-	{"sentinel.provider.v2.MsgRegisterResponse", func() Msg { return new(providertypes.MsgRegisterResponse) }},
-	{"sentinel.provider.v2.MsgUpdateResponse", func() Msg { return new(providertypes.MsgUpdateResponse) }},
-	{"sentinel.provider.v2.Provider", func() Msg { return new(providertypes.Provider) }},
-	{"sentinel.provider.v2.Params", func() Msg { return new(providertypes.Params) }},
-	{"sentinel.provider.v2.GenesisState", func() Msg { return new(providertypes.GenesisState) }},
-	// x/node
-	{"sentinel.node.v2.MsgRegisterRequest", func() Msg { return new(nodetypes.MsgRegisterRequest) }},
-	{"sentinel.node.v2.MsgUpdateDetailsRequest", func() Msg { return new(nodetypes.MsgUpdateDetailsRequest) }},
-	{"sentinel.node.v2.MsgUpdateStatusRequest", func() Msg { return new(nodetypes.MsgUpdateStatusRequest) }},
-	{"sentinel.node.v2.MsgSubscribeRequest", func() Msg { return new(nodetypes.MsgSubscribeRequest) }},
-	{"sentinel.node.v2.MsgRegisterResponse", func() Msg { return new(nodetypes.MsgRegisterResponse) }},
-	{"sentinel.node.v2.MsgUpdateDetailsResponse", func() Msg { return new(nodetypes.MsgUpdateDetailsResponse) }},
-	{"sentinel.node.v2.MsgUpdateStatusResponse", func() Msg { return new(nodetypes.MsgUpdateStatusResponse) }},
-	{"sentinel.node.v2.MsgSubscribeResponse", func() Msg { return new(nodetypes.MsgSubscribeResponse) }},
-	{"sentinel.node.v2.Node", func() Msg { return new(nodetypes.Node) }},
-	{"sentinel.node.v2.Params", func() Msg { return new(nodetypes.Params) }},
-	{"sentinel.node.v2.GenesisState", func() Msg { return new(nodetypes.GenesisState) }},
-	// x/plan
-	{"sentinel.plan.v2.MsgCreateRequest", func() Msg { return new(plantypes.MsgCreateRequest) }},
-	{"sentinel.plan.v2.MsgUpdateStatusRequest", func() Msg { return new(plantypes.MsgUpdateStatusRequest) }},
-	{"sentinel.plan.v2.MsgLinkNodeRequest", func() Msg { return new(plantypes.MsgLinkNodeRequest) }},
-	{"sentinel.plan.v2.MsgUnlinkNodeRequest", func() Msg { return new(plantypes.MsgUnlinkNodeRequest) }},
-	{"sentinel.plan.v2.MsgSubscribeRequest", func() Msg { return new(plantypes.MsgSubscribeRequest) }},
-	{"sentinel.plan.v2.MsgCreateResponse", func() Msg { return new(plantypes.MsgCreateResponse) }},
-	{"sentinel.plan.v2.MsgUpdateStatusResponse", func() Msg { return new(plantypes.MsgUpdateStatusResponse) }},
-	{"sentinel.plan.v2.MsgLinkNodeResponse", func() Msg { return new(plantypes.MsgLinkNodeResponse) }},
-	{"sentinel.plan.v2.MsgUnlinkNodeResponse", func() Msg { return new(plantypes.MsgUnlinkNodeResponse) }},
-	{"sentinel.plan.v2.MsgSubscribeResponse", func() Msg { return new(plantypes.MsgSubscribeResponse) }},
-	{"sentinel.plan.v2.Plan", func() Msg { return new(plantypes.Plan) }},
-	{"sentinel.plan.v2.GenesisPlan", func() Msg { return new(plantypes.GenesisPlan) }},
-	// x/subscription
-	{"sentinel.subscription.v2.MsgCancelRequest", func() Msg { return new(subscriptiontypes.MsgCancelRequest) }},
-	{"sentinel.subscription.v2.MsgAllocateRequest", func() Msg { return new(subscriptiontypes.MsgAllocateRequest) }},
-	{"sentinel.subscription.v2.MsgCancelResponse", func() Msg { return new(subscriptiontypes.MsgCancelResponse) }},
-	{"sentinel.subscription.v2.MsgAllocateResponse", func() Msg { return new(subscriptiontypes.MsgAllocateResponse) }},
-	{"sentinel.subscription.v2.BaseSubscription", func() Msg { return new(subscriptiontypes.BaseSubscription) }},
-	{"sentinel.subscription.v2.NodeSubscription", func() Msg { return new(subscriptiontypes.NodeSubscription) }},
-	{"sentinel.subscription.v2.PlanSubscription", func() Msg { return new(subscriptiontypes.PlanSubscription) }},
-	{"sentinel.subscription.v2.Allocation", func() Msg { return new(subscriptiontypes.Allocation) }},
-	{"sentinel.subscription.v2.Payout", func() Msg { return new(subscriptiontypes.Payout) }},
-	{"sentinel.subscription.v2.Params", func() Msg { return new(subscriptiontypes.Params) }},
-	{"sentinel.subscription.v2.GenesisSubscription", func() Msg { return new(subscriptiontypes.GenesisSubscription) }},
-	{"sentinel.subscription.v2.GenesisState", func() Msg { return new(subscriptiontypes.GenesisState) }},
-	// x/session
-	{"sentinel.session.v2.MsgStartRequest", func() Msg { return new(sessiontypes.MsgStartRequest) }},
-	{"sentinel.session.v2.MsgUpdateDetailsRequest", func() Msg { return new(sessiontypes.MsgUpdateDetailsRequest) }},
-	{"sentinel.session.v2.MsgEndRequest", func() Msg { return new(sessiontypes.MsgEndRequest) }},
-	{"sentinel.session.v2.MsgStartResponse", func() Msg { return new(sessiontypes.MsgStartResponse) }},
-	{"sentinel.session.v2.MsgUpdateDetailsResponse", func() Msg { return new(sessiontypes.MsgUpdateDetailsResponse) }},
-	{"sentinel.session.v2.MsgEndResponse", func() Msg { return new(sessiontypes.MsgEndResponse) }},
-	{"sentinel.session.v2.Session", func() Msg { return new(sessiontypes.Session) }},
-	{"sentinel.session.v2.Proof", func() Msg { return new(sessiontypes.Proof) }},
-	{"sentinel.session.v2.Params", func() Msg { return new(sessiontypes.Params) }},
-	{"sentinel.session.v2.GenesisState", func() Msg { return new(sessiontypes.GenesisState) }},
-	// x/swap
-	{"sentinel.swap.v1.MsgSwapRequest", func() Msg { return new(swaptypes.MsgSwapRequest) }},
-	{"sentinel.swap.v1.MsgSwapResponse", func() Msg { return new(swaptypes.MsgSwapResponse) }},
-	{"sentinel.swap.v1.Swap", func() Msg { return new(swaptypes.Swap) }},
-	{"sentinel.swap.v1.Params", func() Msg { return new(swaptypes.Params) }},
-	{"sentinel.swap.v1.GenesisState", func() Msg { return new(swaptypes.GenesisState) }},
-	// x/deposit, x/mint, x/vpn, types
-	{"sentinel.deposit.v1.Deposit", func() Msg { return new(deposittypes.Deposit) }},
-	{"sentinel.mint.v1.Inflation", func() Msg { return new(minttypes.Inflation) }},
-	{"sentinel.mint.v1.GenesisState", func() Msg { return new(minttypes.GenesisState) }},
-	{"sentinel.vpn.v1.GenesisState", func() Msg { return new(vpntypes.GenesisState) }},
-	{"sentinel.types.v1.Bandwidth", func() Msg { return new(hubtypes.Bandwidth) }},
+// TypeEntry is one covered concrete type.
+type TypeEntry struct {
+	Name string
+	Core bool
+	New  func() Msg
 }
 
-// registryNames lists every message (nested ones included) with prefix
-// "sentinel." in a file registered with gogoproto.
-func registryNames() []string {
-	var names []string
-	var walk func(ms protoreflect.MessageDescriptors)
-	walk = func(ms protoreflect.MessageDescriptors) {
-		for i := 0; i < ms.Len(); i++ {
-			md := ms.Get(i)
-			if md.IsMapEntry() {
-				continue
-			}
-			if n := string(md.FullName()); strings.HasPrefix(n, "sentinel.") {
-				names = append(names, n)
-			}
-			walk(md.Messages())
-		}
+// msgName returns gogoproto's proto.MessageName(m): NewAnyWithValue sets
+// TypeUrl = "/" + proto.MessageName(v).
+func msgName(m Msg) string {
+	a, err := codectypes.NewAnyWithValue(m)
+	if err != nil {
+		panic(fmt.Sprintf("probe19: msgName(%T): %v", m, err))
 	}
-	gogoproto.GogoResolver.RangeFiles(func(fd protoreflect.FileDescriptor) bool {
-		walk(fd.Messages())
-		return true
-	})
-	sort.Strings(names)
-	return names
+	return strings.TrimPrefix(a.TypeUrl, "/")
 }
 
-// Types returns the covered types sorted by name: the union of the explicit
-// table and the gogoproto registry. Problems (name mismatch, registered name
-// without a usable Go type, explicit type missing from the registry, unsupported
-// field shape) are written to log and returned as an error count.
-func Types(log io.Writer) ([]TypeEntry, int) {
+// enumValues returns the declared values of a proto enum (the map the
+// generated code hands to proto.RegisterEnum).
+func enumValues(name string) map[string]int32 {
+	switch name {
+	case "sentinel.types.v1.Status":
+		return hubtypes.Status_value
+	case "sentinel.subscription.v2.SubscriptionType":
+		return subscriptiontypes.SubscriptionType_value
+	}
+	panic("probe19: unknown enum " + name + " (add it to enumValues)")
+}
+
+// Types returns the covered types sorted by name. Problems (name mismatch,
+// duplicate, unsupported field shape, a sentinel type known to the interface
+// registry but missing from the table) are written to log and counted.
+func Types(ir codectypes.InterfaceRegistry, log io.Writer) ([]TypeEntry, int) {
 	problems := 0
-	byName := map[string]*TypeEntry{}
-
-	for _, e := range explicitTable {
+	byName := map[string]bool{}
+	var out []TypeEntry
+	for _, e := range typeTable {
 		m := e.new()
-		if got := gogoproto.MessageName(m); got != e.name {
-			fmt.Fprintf(log, "probe19: PROBLEM explicit table: %T has proto name %q, table says %q\n", m, got, e.name)
+		if got := msgName(m); got != e.name {
+			fmt.Fprintf(log, "probe19: PROBLEM table: %T has proto name %q, table says %q\n", m, got, e.name)
 			problems++
 		}
-		if _, dup := byName[e.name]; dup {
-			fmt.Fprintf(log, "probe19: PROBLEM explicit table: duplicate %s\n", e.name)
-			problems++
-			continue
-		}
-		byName[e.name] = &TypeEntry{Name: e.name, New: e.new, Explicit: true}
-	}
-
-	inRegistry := map[string]bool{}
-	for _, n := range registryNames() {
-		inRegistry[n] = true
-		rt := gogoproto.MessageType(n)
-		if rt == nil || rt.Kind() != reflect.Ptr || rt.Elem().Kind() != reflect.Struct {
-			fmt.Fprintf(log, "probe19: PROBLEM registry: %s has descriptor but no registered Go type; NOT covered\n", n)
+		if byName[e.name] {
+			fmt.Fprintf(log, "probe19: PROBLEM table: duplicate %s\n", e.name)
 			problems++
 			continue
 		}
-		if _, ok := reflect.New(rt.Elem()).Interface().(Msg); !ok {
-			fmt.Fprintf(log, "probe19: PROBLEM registry: %s (%s) is not a codec.ProtoMarshaler; NOT covered\n", n, rt)
-			problems++
-			continue
-		}
-		if e, ok := byName[n]; ok {
-			if got := reflect.TypeOf(e.New()); got != rt {
-				fmt.Fprintf(log, "probe19: PROBLEM %s: explicit Go type %s != registered %s\n", n, got, rt)
-				problems++
-			}
-			continue
-		}
-		elem := rt.Elem()
-		byName[n] = &TypeEntry{Name: n, New: func() Msg { return reflect.New(elem).Interface().(Msg) }}
-	}
-	for _, e := range explicitTable {
-		if !inRegistry[e.name] {
-			fmt.Fprintf(log, "probe19: PROBLEM explicit type %s not found in the gogoproto file registry\n", e.name)
-			problems++
-		}
-	}
-
-	out := make([]TypeEntry, 0, len(byName))
-	for _, e := range byName {
-		out = append(out, *e)
+		byName[e.name] = true
+		out = append(out, TypeEntry{Name: e.name, Core: e.core, New: e.new})
 	}
 	sort.Slice(out, func(i, j int) bool { return out[i].Name < out[j].Name })
+
+	// cross-check: every sentinel.* implementation the application registered
+	// for any interface (sdk.Msg, Subscription, ...) must be in the table
+	for _, iface := range ir.ListAllInterfaces() {
+		for _, url := range ir.ListImplementations(iface) {
+			n := strings.TrimPrefix(url, "/")
+			if strings.HasPrefix(n, "sentinel.") && !byName[n] {
+				fmt.Fprintf(log, "probe19: PROBLEM %s is registered for interface %s but missing from the type table; NOT covered\n", n, iface)
+				problems++
+			}
+		}
+	}
 
 	seen := map[reflect.Type]bool{}
 	for _, e := range out {
